@@ -50,7 +50,7 @@ def codes64(qt):
     return d.to(torch.float32).to(torch.float64) if d.dtype != torch.int8 else d.to(torch.float64)
 
 
-def check_N(out, tag, x, scale, q, qtype, idem=None, want_axis="any"):
+def check_N(out, tag, x, scale, q, qtype, idem=None, want_axis="any", mixed=False):
     """Oracle N (DESIGN 1.5) for one 8-bit symmetric quantization  q = quantize(x, scale).
 
     x: source float tensor; scale: tensor broadcastable to x (the one handed to / chosen by quanto).
@@ -61,6 +61,11 @@ def check_N(out, tag, x, scale, q, qtype, idem=None, want_axis="any"):
     if not isinstance(q, QBytesTensor):
         out.fail(f"{tag}/form", f"result is {type(q).__name__}, not a QBytesTensor")
         return {}, None, None
+    if mixed and q.dtype in (x.dtype, scale.dtype):
+        # scale of another float dtype than the tensor: the property fixes the values, not which of the two dtypes the
+        # result carries; the rounding allowance is that of the coarser dtype, dequantization is judged in the result's dtype
+        u, eta = max(u, gen.U[scale.dtype]), max(eta, gen.ETA[scale.dtype])
+        dtype = q.dtype
     if tuple(q.shape) != tuple(x.shape) or q.dtype != dtype or q._data.dtype != qtype.dtype or q.qtype != qtype:
         out.fail(f"{tag}/form", f"shape {tuple(q.shape)} dtype {q.dtype} payload {q._data.dtype} for source {tuple(x.shape)} {dtype} {qtype.name}")
         return {}, None, None
